@@ -9,6 +9,12 @@ A *case* is a JSON-able dict (so that it can be written into a replay file):
      'conds': [cond, ...],                      # 1..n conditions (one for unless / call)
      'bodies': [[ref, ...], ...],               # per condition: references placed in its body
      'else':  None | [ref, ...],                # chain only
+     'btypes': [body type per condition],       # optional, default 'full'; see BTYPES
+     'etype': body type of the else body,       # optional, default 'full'
+     'ename': bool,                             # optional: else spelled <dtml-else NAME> (the
+                                                #   documented long form repeating the if argument)
+     'endname': bool,                           # optional: end tag repeats the if argument
+     'bare':  bool,                             # optional: no literal text around the conditional
      'boom':  bool}                             # optional: probes of the conditions after the
                                                 #   first true one are armed to raise
 
@@ -50,6 +56,13 @@ OUTERS = (None, 'in', 'twice', 'with', 'let', 'if', 'try')   # 'twice': the cond
 
 PRE, POST = '<<', '>>'
 
+# Body types: 'full' = label text + '[' references ']' (no references = text only);
+# 'empty' = nothing at all between the tags; 'ws' = white space only; 'refsonly' = only the
+# references, no literal text (no references = empty).
+BTYPES = ('full', 'empty', 'ws', 'refsonly')
+WS = ' \t '     # no newline: blanks + newline right after a block tag are skipped by the parser
+                 # by design (skip_eol); that is not this property's business
+
 
 def value_of(cond):
     """The value a defined condition evaluates to."""
@@ -71,8 +84,9 @@ class Syn:
         a = (' ' + args) if args else ''
         return ('<dtml-%s%s>' if self.dtml else '<!--#%s%s-->') % (tag, a)
 
-    def close(self, tag):
-        return ('</dtml-%s>' if self.dtml else '<!--#/%s-->') % tag
+    def close(self, tag, args=''):
+        a = (' ' + args) if args else ''
+        return ('</dtml-%s%s>' if self.dtml else '<!--#/%s%s-->') % (tag, a)
 
 
 def cond_args(cond):
@@ -143,8 +157,25 @@ def wrap_source(syn, w, inner):
     raise ValueError(w)
 
 
-def body_source(syn, label, refs):
-    return label + '[' + ''.join(ref_source(syn, r) for r in refs) + ']'
+def body_source(syn, label, refs, btype='full'):
+    if btype == 'empty':
+        return ''
+    if btype == 'ws':
+        return WS
+    inner = ''.join(ref_source(syn, r) for r in refs)
+    if btype == 'refsonly':
+        return inner
+    if btype == 'full':
+        return label + '[' + inner + ']'
+    raise ValueError(btype)
+
+
+def btype_of(case, i):
+    """Body type of body i ('E' = else body)."""
+    if i == 'E':
+        return case.get('etype') or 'full'
+    bt = case.get('btypes')
+    return bt[i] if bt else 'full'
 
 
 def build_source(case):
@@ -152,19 +183,22 @@ def build_source(case):
     o, c = syn.open, syn.close
     fam = case['fam']
     conds = case['conds']
+    endargs = cond_args(conds[0]) if case.get('endname') else ''
     if fam == 'chain':
         parts = []
         for i, cond in enumerate(conds):
             parts.append(o('if' if i == 0 else 'elif', cond_args(cond)))
-            parts.append(body_source(syn, 'B%d' % i, case['bodies'][i]))
+            parts.append(body_source(syn, 'B%d' % i, case['bodies'][i], btype_of(case, i)))
         if case.get('else') is not None:
-            parts.append(o('else'))
-            parts.append(body_source(syn, 'E', case['else']))
-        parts.append(c('if'))
+            # the long form repeats the argument of the if tag literally
+            parts.append(o('else', cond_args(conds[0]) if case.get('ename') else ''))
+            parts.append(body_source(syn, 'E', case['else'], btype_of(case, 'E')))
+        parts.append(c('if', endargs))
         inner = ''.join(parts)
     elif fam == 'unless':
-        inner = (o('unless', cond_args(conds[0])) + body_source(syn, 'B0', case['bodies'][0]) +
-                 c('unless'))
+        inner = (o('unless', cond_args(conds[0])) +
+                 body_source(syn, 'B0', case['bodies'][0], btype_of(case, 0)) +
+                 c('unless', endargs))
     elif fam == 'call':
         inner = 'A' + o('call', cond_args(conds[0])) + 'B'
     else:
@@ -172,6 +206,8 @@ def build_source(case):
     outer = case.get('outer')
     if outer:
         inner = wrap_source(syn, outer, inner)
+    if case.get('bare'):
+        return inner
     return PRE + inner + POST
 
 
@@ -201,8 +237,12 @@ def wrap_model(w, text):
     raise ValueError(w)
 
 
-def body_model(label, refs, known):
-    out = [label, '[']
+def body_model(label, refs, known, btype='full'):
+    if btype == 'empty':
+        return ''
+    if btype == 'ws':
+        return WS
+    out = [label, '['] if btype == 'full' else []
     for name, form, wrappers in refs:
         if name not in known:
             raise ValueError('generator error: reference to %s which the conditional did not '
@@ -211,7 +251,8 @@ def body_model(label, refs, known):
         for w in reversed(wrappers):
             t = wrap_model(w, t)
         out.append(t)
-    out.append(']')
+    if btype == 'full':
+        out.append(']')
     return ''.join(out)
 
 
@@ -242,14 +283,14 @@ def one_conditional(case, events):
     if fam == 'chain':
         for i, cond in enumerate(conds):
             if eval_cond(cond, known, events):
-                return body_model('B%d' % i, case['bodies'][i], known), i
+                return body_model('B%d' % i, case['bodies'][i], known, btype_of(case, i)), i
         if case.get('else') is not None:
-            return body_model('E', case['else'], known), 'E'
+            return body_model('E', case['else'], known, btype_of(case, 'E')), 'E'
         return '', None
     if fam == 'unless':
         if eval_cond(conds[0], known, events):
             return '', None
-        return body_model('B0', case['bodies'][0], known), 0
+        return body_model('B0', case['bodies'][0], known, btype_of(case, 0)), 0
     if fam == 'call':
         eval_cond(conds[0], known, events)
         return 'AB', None
@@ -268,6 +309,8 @@ def predict(case):
         text = text + text2
     elif outer:
         text = wrap_model(outer, text)
+    if case.get('bare'):
+        return text, events, chosen
     return PRE + text + POST, events, chosen
 
 
